@@ -4,10 +4,11 @@ import importlib.util, json, os, glob
 ROOT = os.path.dirname(os.path.abspath(__file__))
 ids = [json.loads(l)["id"] for l in open(os.path.join(ROOT, "properties.jsonl"))]
 NOT_YET = json.load(open(os.path.join(ROOT, "not_applicable.json"))) if os.path.exists(os.path.join(ROOT, "not_applicable.json")) else {}
+CLAIMED = set(json.load(open(os.path.join(ROOT, "claimed.json"))))   # integrated = reviewed + check passes at several seeds
 checks, na = [], []
 for pid in ids:
     p = os.path.join(ROOT, "props", pid + ".py")
-    if not os.path.exists(p):
+    if pid not in CLAIMED or not os.path.exists(p):
         na.append({"property_id": pid, "reason": NOT_YET.get(pid, "no check built yet for this property (model/harness not finished); nothing is claimed")})
         continue
     sm = importlib.util.spec_from_file_location("p" + pid, p); m = importlib.util.module_from_spec(sm); sm.loader.exec_module(m)
